@@ -4,20 +4,23 @@
   list (`Extracted.Sha1Ripemd.RIPEMD_LEFT/RIGHT`, rows `[o0,o1,o2,o3,o4,data_index,roll_shift,add,fn]`) with the
   `round!` macro body as the step function, on the two 5-word arrays `bb` / `bbb`, and ends with the
   "Combine results" block.  The extractor pins the text of `round!` and of the combine block.
-  `FixedBuffer<64>` is `Cx.Impl.FB64` (Impl/Sha1.lean).  `Option`: `none` = panic.
+  `FixedBuffer<64>` is the generic `Cx.Impl.FixedBuffer` with `N = 64`.  `Option`: `none` = panic.
+  `processed_bytes += len` is modelled wrapping (see Impl/Sha1.lean).
 
   -- API:
   --   Cx.Impl.Ripemd160.ripemd160 : Bytes → Option Bytes    `cryptoxide::hashing::ripemd160`
   --   Cx.Impl.Ripemd160.Context   with new / update / update_mut / finalize / reset / finalize_reset
+  --   Cx.Impl.Ripemd160.fam       : Cx.HashProg.Family Context   (the `hctx.ripemd160` machine)
   --   Cx.Impl.Ripemd160.process_msg_block : Bytes → Hash → Option Hash
 -/
 import CxVerif.Util.Bytes
 import CxVerif.Spec.Ripemd160
-import CxVerif.Impl.Sha1
+import CxVerif.Impl.FixedBuffer
+import CxVerif.Impl.HashProg
 import CxVerif.Extracted.Sha1Ripemd
 
 namespace Cx.Impl.Ripemd160
-open Cx Cx.Impl.FB64
+open Cx Cx.Impl
 open Cx.Spec.Ripemd160 (Hash)
 
 /-- `[u32; 5]` indexed by a literal: the record type of the Spec is shared as a data type; fields a..e = [0]..[4] -/
@@ -113,11 +116,11 @@ def write_u32_le (x : UInt32) : Bytes := u32le x
 
 namespace Context
 
-def new : Context := ⟨H, 0, FixedBuffer.new⟩
+def new : Context := ⟨H, 0, FixedBuffer.new 64⟩
 
 def update_mut (self : Context) (msg : Bytes) : Option Context :=
   let processed_bytes := self.processed_bytes + UInt64.ofNat msg.length
-  match self.buffer.input msg (fun h d => process_msg_blocks d h) self.h with
+  match self.buffer.input 64 msg (fun h d => process_msg_blocks d h) self.h with
   | none => none
   | some (buffer, h) => some ⟨h, processed_bytes, buffer⟩
 
@@ -126,17 +129,17 @@ def update (self : Context) (input : Bytes) : Option Context := self.update_mut 
 def reset (self : Context) : Context := ⟨H, 0, self.buffer.reset⟩
 
 def finalize_reset (self : Context) : Option (Context × Bytes) :=
-  match self.buffer.standard_padding 8 (fun h d => process_msg_block d h) self.h with
+  match self.buffer.standard_padding 64 8 (fun h d => process_msg_block d h) self.h with
   | none => none
   | some (buffer, h) =>
     -- `(self.processed_bytes << 3) as u32`, `(self.processed_bytes >> 29) as u32`
-    match buffer.next (write_u32_le (self.processed_bytes <<< 3).toUInt32) with
+    match buffer.next_write 4 (write_u32_le (self.processed_bytes <<< 3).toUInt32) with
     | none => none
     | some buffer =>
-      match buffer.next (write_u32_le (self.processed_bytes >>> 29).toUInt32) with
+      match buffer.next_write 4 (write_u32_le (self.processed_bytes >>> 29).toUInt32) with
       | none => none
       | some buffer =>
-        match buffer.full_buffer with
+        match buffer.full_buffer 64 with
         | none => none
         | some (buffer, blk) =>
           match process_msg_block blk h with
@@ -154,5 +157,9 @@ def ripemd160 (input : Bytes) : Option Bytes :=
   match Context.new.update input with
   | none => none
   | some c => c.finalize
+
+/-- the context family run by the `hctx.ripemd160` op -/
+def fam : Cx.HashProg.Family Context :=
+  ⟨Context.new, Context.update, Context.update_mut, Context.reset, Context.finalize_reset, Context.finalize⟩
 
 end Cx.Impl.Ripemd160
